@@ -24,14 +24,14 @@ SRC = "src/pydiverse/transform/_internal"
 
 # file -> (functions (qualified by class where needed), checks that have them under contract)
 TARGETS = {
-    f"{SRC}/pipe/cache.py": (["Cache.update", "Cache.requires_subquery", "Cache.from_ast", "transfer_col_references"], ["C11", "C08", "C09", "C06", "C07", "C16", "C10", "C02", "C01"]),
-    f"{SRC}/backend/polars.py": (["compile_ast", "compile_col_expr", "merge_desc_nulls_last", "compile_order", "rename_overwritten_cols", "unify_operand_types"], ["C02", "C05", "C09", "C11", "C06", "C07", "C04", "C03", "C12", "C01"]),
-    f"{SRC}/backend/sql.py": (["SqlImpl.compile_ast", "SqlImpl.compile_query", "SqlImpl.compile_col_expr", "SqlImpl.compile_order", "dedup_order_by", "with_default_arrange", "SqlImpl.export"], ["C02", "C08", "C05", "C11", "C09", "C06", "C07", "C19", "C04", "C15", "C20", "C01"]),
-    f"{SRC}/pipe/verbs.py": (["join", "_union_impl", "rename", "select", "mutate", "summarize", "slice_head", "preprocess_arg", "export", "group_by", "collect"], ["C06", "C07", "C14", "C11", "C09", "C02", "C20", "C16", "C10", "C05", "C15", "C01"]),
-    f"{SRC}/pipe/pipeable.py": (["check_subquery", "modify_ast"], ["C08", "C19", "C16", "C01"]),
+    f"{SRC}/pipe/cache.py": (["Cache.update", "Cache.requires_subquery", "Cache.from_ast", "transfer_col_references"], ["C11", "C08", "C06", "C07", "C16"]),
+    f"{SRC}/backend/polars.py": (["compile_ast", "compile_col_expr", "merge_desc_nulls_last", "compile_order", "rename_overwritten_cols", "unify_operand_types"], ["C05", "C02", "C06", "C07", "C04", "C01"]),
+    f"{SRC}/backend/sql.py": (["SqlImpl.compile_ast", "SqlImpl.compile_query", "SqlImpl.compile_col_expr", "SqlImpl.compile_order", "dedup_order_by", "with_default_arrange", "SqlImpl.export"], ["C02", "C08", "C05", "C06", "C07", "C20", "C01"]),
+    f"{SRC}/pipe/verbs.py": (["join", "_union_impl", "rename", "select", "mutate", "summarize", "slice_head", "preprocess_arg", "export", "group_by", "collect"], ["C06", "C07", "C14", "C11", "C02", "C20", "C16"]),
+    f"{SRC}/pipe/pipeable.py": (["check_subquery", "modify_ast"], ["C08", "C19", "C16"]),
     f"{SRC}/tree/types.py": (["converts_to", "conversion_cost", "lca_type", "is_subtype"], ["C13", "C12", "C17", "C19"]),
     f"{SRC}/ops/signature.py": (["best_signature_match", "sig_distance", "SignatureTrie.best_match", "SignatureTrie.insert"], ["C13", "C12", "C19"]),
-    f"{SRC}/tree/col_expr.py": (["Cast.is_valid_cast", "Cast.dtype", "ColFn.dtype", "ColFn.ftype", "CaseExpr.dtype", "CaseExpr.ftype", "Order.from_col_expr", "ColExpr.map", "get_expr_as_table", "ColFn.__init__"], ["C17", "C13", "C14", "C05", "C03", "C04", "C12", "C20", "C18"]),
+    f"{SRC}/tree/col_expr.py": (["Cast.is_valid_cast", "Cast.dtype", "ColFn.dtype", "ColFn.ftype", "CaseExpr.dtype", "CaseExpr.ftype", "Order.from_col_expr", "ColExpr.map", "get_expr_as_table", "ColFn.__init__"], ["C17", "C13", "C14", "C05", "C03", "C04", "C20"]),
     f"{SRC}/tree/verbs.py": (["Alias._clone", "Join._clone", "Union._clone", "Mutate._clone", "Summarize._clone", "Verb._clone"], ["C16", "C09", "C06", "C07"]),
     f"{SRC}/backend/sqlite.py": (["SqliteImpl.compile_cast", "_least", "_greatest"], ["C17", "C03", "C18", "C12"]),
     f"{SRC}/backend/table_impl.py": (["split_join_cond", "get_left_right_on"], ["C06", "C09", "C01"]),
@@ -98,7 +98,7 @@ def mutants_of(path, src, fname, fn):
                 if old in mid and not isinstance(r, ast.Constant) or isinstance(getattr(r, "value", None), (int, float)):
                     repl(node.lineno, a, b, mid.replace(old, new, 1), f"{old} -> {new}")
         elif isinstance(node, ast.Constant) and node.lineno == node.end_lineno:
-            if node.value is True or node.value is False:
+            if (node.value is True or node.value is False) and "strict=" not in lines[node.lineno - 1]:
                 repl(node.lineno, node.col_offset, node.end_col_offset, str(not node.value), f"{node.value} -> {not node.value}")
             elif isinstance(node.value, int) and not isinstance(node.value, bool) and node.value in (0, 1, 2):
                 nv = {0: 1, 1: 0, 2: 1}[node.value]
@@ -114,14 +114,13 @@ def mutants_of(path, src, fname, fn):
     return res
 
 
-def gen(per_function=6, seed=1):
+def gen(per_function=6, seed=1, start=0, skip_files=()):
     os.makedirs(OUT, exist_ok=True)
-    for f in os.listdir(OUT):
-        if f.startswith("m") and (f.endswith(".json") or f.endswith(".diff")):
-            os.remove(os.path.join(OUT, f))
     rnd = random.Random(seed)
-    n = 0
+    n = start
     for path, (names, checks) in TARGETS.items():
+        if path in skip_files:
+            continue
         src = open(os.path.join("/repo", path)).read()
         tree = ast.parse(src)
         found = functions_of(tree, names)
